@@ -134,7 +134,8 @@ def locate(index, pos):
 
 
 def idsets(n, rnd):
-    return [list(range(1, n + 1)), [2 ** 32 + 7 * i for i in range(1, n + 1)], [2 ** 64 - 1 - 3 * i for i in range(n)]]
+    # (small; large; near 2^64; identifiers that agree in their ten low bits: 1, 1025, 2049, ...)
+    return [list(range(1, n + 1)), [2 ** 32 + 7 * i for i in range(1, n + 1)], [2 ** 64 - 1 - 3 * i for i in range(n)], [1 + 1024 * i for i in range(n)]]
 
 
 # ------------------------------------------------------------------------------------------ concurrent generations (DkgConc.tla)
@@ -323,7 +324,7 @@ def run_c12(tier, seed, wd, info, verdict):
         for t in range(0, n + 2):          # (threshold 0 - the value of an absent field - is outside the rule like any other)
             valid = 2 * t > n and t <= n
             sets = idsets(n, rnd) if (n == 3 or tier != "quick") else [list(range(1, n + 1))]
-            for ids in sets[:(3 if valid else 1)]:
+            for ids in sets[:(4 if valid else 1)]:
                 inits = ids if (tier != "quick" and valid and n <= 4) else [ids[k % n]]
                 for init in inits:
                     orders = [None]
